@@ -32,7 +32,11 @@ def gen_dsmhist(tier, seed):
             if o == "setprms":
                 ops.append(["setprms", r.randrange(npsets)])
             elif o == "setdriver":
-                ops.append(["setdriver", driver(r, n, m, dk)])
+                if r.random() < 0.25:
+                    ops.append(["setdriver", ["0"] * (n * m)])      # an all-zero driver after earlier runs
+                    stats["zero_driver"] = stats.get("zero_driver", 0) + 1
+                else:
+                    ops.append(["setdriver", driver(r, n, m, dk)])
             else:
                 ops.append([o])
             stats["ops"][o] = stats["ops"].get(o, 0) + 1
